@@ -716,6 +716,7 @@ NOISE_BY_KIND = {
     "DropFunction": {"DEFAULT": "argument default: DEFAULT == ="},
     "DropProcedure": {"DEFAULT": "argument default: DEFAULT == ="},
     "CreateProcedure": {"DEFAULT": "argument default: DEFAULT == ="},
+    "CreateTrigger": {"DEFAULT": "argument default in EXECUTE FUNCTION f(..): DEFAULT == ="},
     "ShowColumns": {"FIELDS": "FIELDS == COLUMNS", "IN": "IN == FROM"},
     "ShowTables": {"IN": "IN == FROM"},
 }
